@@ -3,7 +3,7 @@ both when reading and when skipping; bad union/enum indices and short input rais
 import io, itertools
 from .. import core, gallina as G, codec_common as CC, gen
 
-SRCFACTS = []
+SRCFACTS = ["leaves_dec"]
 RULE = ("layouts = typed values generated top-down from random schemas with every array/map split into random blocks (all compositions of "
         "n<=4 (quick) / n<=6 (thorough) items for array<long>, both count forms, correct / arbitrary announced byte sizes, duplicate map keys "
         "across blocks); bytes produced by the MODEL's layout encoder and fed to fastavro; corr:skip = same bytes as a writer-only field; "
